@@ -21,6 +21,8 @@ func checkC01(c *Ctx) {
 	c.Rule("C01-R6", "showCursor runs after the cell loop on every path; addressing only inside the four-sided on-screen test, otherwise hideCursor")
 	c.Rule("C01-R7", "palette indices come from the colour cache or FindColor over the terminal palette; RGB triples from the same colour under truecolor")
 	c.Rule("C01-R8", "after painting a wide rune, draw re-dirties the hidden column (bounded by the width)")
+	c.Rule("C01-R14", "the RGB values the fitting uses for palette entries (the xterm 256-colour table) are those of the terminal's own palette: every entry's colour count is one whose first entries coincide with that table (0, 8, 16, 256 or direct colour)")
+	c.Expect("C01-R14", 49)
 	c.Rule("C01-R13", "the underline attribute bit and the underline style stay in step (the painters draw from the style): every Style method that replaces attrs as a whole also sets ulStyle, every method that sets ulStyle also sets the bit")
 	c.Expect("C01-R13", 2)
 	c.Rule("C01-R12", "LockRegion locks exactly the cells of the rectangle it is given (cells outside it stay paintable)")
@@ -60,6 +62,13 @@ func checkC01(c *Ctx) {
 	}
 	checkStyleCacheReads(c, p, "C01-R9")
 	checkUnderlineViews(c, p, "C01-R13")
+	if db := buildDB(c, p); db != nil {
+		for _, e := range db.entries {
+			n := e.Int["Colors"]
+			ok := n == 0 || n == 2 || n == 8 || n == 16 || n == 256 || n >= 1<<24
+			c.Check(ok, "C01-R14", e.Name+":palette-model", p.pos(e.Pos), fmt.Sprintf("%d colours; the screen fits RGB to palette entries using the xterm-256 values of ColorValues, which an %d-colour palette does not share beyond the first 16", n, n))
+		}
+	}
 	if lr := p.Fn("tcell:(*baseScreen).LockRegion"); lr != nil {
 		lockRegionRange(c, p, lr, "C01-R12")
 	} else {
